@@ -102,3 +102,29 @@ def check(ctx, col, rule: str, modules: tuple):
     col.check(ok, rule, "sa.fixtures.stateless_positive", "sa/fixtures/stateless_positive.py:1",
               f"lint recognises its kept positive examples ({n_cls} transform classes scanned, {hits} hit(s))", str(found),
               f"fixture results {found}", stmt="fixture")
+
+
+def check_memo(ctx, col, rule: str, modules: tuple):
+    """Objects that carry the geometry (trees, nodes, paths, branches): a method other than __init__ / a setter that stores to
+    `self.<attr>` keeps a value computed from the coordinates of that moment.  The library copies trees with deepcopy and then
+    overwrites the coordinate columns in place (all affine transforms, the node setters), so the kept value outlives the
+    geometry it was computed from."""
+    repo = ctx.repo
+    n_cls = hits = 0
+    for c in repo.classes.values():
+        if c.module.name not in modules:
+            continue
+        n_cls += 1
+        for name, d in c.methods.items():
+            if name in ("__init__", "__new__", "__setstate__", "__setattr__", "__post_init__") or any(x.endswith(".setter") for x in d.decorators) \
+                    or d.is_staticmethod() or d.is_classmethod():
+                continue
+            for kind, attr, node in scan_function(d.node, in_init=False):
+                hits += 1
+                col.bad(rule, d.qualname, d.loc(node), f"`{c.name}.{name}` computes from the current coordinates and keeps nothing on the object",
+                        f"`{norm_src(node)[:90]}` keeps a value on `self.{attr}`: trees are copied with deepcopy and their coordinate columns are then "
+                        f"overwritten in place (every affine transform, the node setters), so the kept value describes the geometry before the edit -- "
+                        f"a scaled copy still reports the unscaled quantity", stmt=f"memo:{attr}", definite=True)
+    col.analysed[f"memo_scope_classes:{rule}"] = n_cls
+    col.ok(rule, "memo-scan", "", f"{n_cls} geometry-carrying classes scanned for values kept on self outside construction", f"{hits} hit(s)", stmt="memo-scan")
+    return hits
